@@ -171,6 +171,7 @@ where
                         break;
                     }
                     for run in base..(base + 64).min(n) {
+                        crate::watch::enter(run);
                         let r = match catch_unwind(AssertUnwindSafe(|| body(run, &mut st))) {
                             Ok(r) => r,
                             Err(_) => {
@@ -189,6 +190,7 @@ where
                         }
                     }
                 }
+                crate::watch::retire();
                 total.lock().unwrap().merge(st);
                 fails.lock().unwrap().extend(local_fails);
             });
